@@ -1,12 +1,32 @@
-"""C19 — offsets -> lines/columns; lines-of-span never fails.
+"""C19 — offsets -> lines/columns; lines-of-span never fails; error pretty-printing reports these positions.
 
 Proof: theories/C19 (mirror of NewlineCache proved against a declarative
-spec for all texts/chunkings/offsets/spans).  Tie: the extracted mirror and the
-implementation are run on the same chunked texts and must print identical
-answers for every byte offset, every boundary and every boundary span.
+spec for all texts/chunkings/offsets/spans; mirror of SpannedDiagnosticFormatter
+— file_location_msg, prefixed_underline_span_with_text, format_spanned,
+underline_spans_on_line_with_text — proved against a declarative row
+specification for all texts, spans on character boundaries and width functions
+(Diag.v / DiagSpec.v / DiagProofs.v); the pinned row printer is refuted
+(C19_underline_orig_*_refuted), the repaired one (notes/C19-diag-fix.diff) proved).
+Tie: the extracted mirror and the implementation are run on the same chunked texts
+and must print identical answers for every byte offset, every boundary and every
+boundary span; the formatter is run (release and overflow-checked debug harness) on
+every small text x every boundary span and compared with the mirror's rendered rows.
 """
 import itertools
+import os
 from vlib import core
+
+# Which variant of the SpannedDiagnosticFormatter mirror (coq/theories/C19/Diag.v) the code in
+# /repo is expected to be: False = the pinned prefixed_underline_span_with_text (iterates
+# str::lines()), whose deviations from the proved row specification are the known finding
+# DIAG_KNOWN; True = the repaired one (notes/C19-diag-fix.diff), proved to meet the
+# specification (C19_underline_rows_spec) — then every deviation alarms.
+DIAG_FIXED = True
+if os.environ.get("GV_C19_DIAG_FIXED") in ("0", "1"):
+    DIAG_FIXED = os.environ["GV_C19_DIAG_FIXED"] == "1"
+DIAG_KNOWN = ("prefixed_underline_span_with_text iterates str::lines() of the span's lines: rows after a CRLF "
+              "line get the wrong start (wrong line number or panic), nothing is printed for a span on an empty "
+              "last line, the last row keeps the CR of its CRLF")
 
 ALPHA = [97, 233, 9824, 10, 13]          # a é ♠ \n \r
 EXTRA = [0x1F600, 32, 0x2028, 98, 88, 89]   # 4-byte char, space, LS, b, X, Y (= lexing errors in the lexer-level queries)
@@ -27,6 +47,193 @@ def chunkings(rng, text, k):
 
 def line_of(chunks):
     return "T " + " ; ".join(" ".join(str(c) for c in ch) for ch in chunks)
+
+
+def dec(field):
+    """a harness/model answer field: 'P' (panic) or 'x<hex of the string>'"""
+    if field == "P":
+        return "PANIC"
+    try:
+        return bytes.fromhex(field[1:]).decode()
+    except Exception:
+        return field
+
+
+def entries(res):
+    """'N len | U s e v | ... | F off v' -> {('U',s,e): v, ('F',off): v}"""
+    out = {}
+    for part in res.split(" | "):
+        f = part.split()
+        if f and f[0] in ("U", "F", "W"):
+            out[tuple(f[:-1])] = f[-1]
+    return out
+
+
+def diag_part(ctx, exe, mexe):
+    """SpannedDiagnosticFormatter: prefixed_underline_span_with_text / underline_span_with_text,
+    file_location_msg (D cases) and format_spanned through format_warning (G cases), release and
+    debug builds of the harness, against the extracted mirror (pinned and repaired variants)."""
+    rng = ctx.rng
+    exe_dbg = core.build_harness("c19", "debug")
+    WIDE = [0x4E2D, 0x1F600, 32, 9, 98]           # 中 (width 2), 4-byte emoji (width 2), space, tab, b
+    texts = [([97, 13, 10, 98], 0), ([97, 13, 10, 98, 99], 0), ([97, 10], 0), ([97, 13, 10], 0), ([], 0),
+             ([97, 13, 10, 98, 13, 10, 99], 0), ([97, 10, 10, 98, 10], 0), ([97, 13], 0), ([97, 10], 4),
+             ([10] * 11 + [97, 98, 10, 99], 3)]
+    maxlen = ctx.n(5, 6)
+    for n in range(0, maxlen + 1):
+        for t in itertools.product(ALPHA, repeat=n):
+            texts.append((list(t), 0))
+    for _ in range(ctx.n(1200, 12000)):
+        n = rng.randint(4, 16)
+        t = [rng.choice(ALPHA + WIDE + [10, 10, 13]) for _ in range(n)]
+        texts.append((t, rng.choice([0, 0, 3, 3, 4])))
+    dl = ["D0 %d ; %s" % (pl, " ".join(map(str, t))) for t, pl in texts]
+    # format_spanned: spans on boundaries with non-decreasing starts (the domain of
+    # C19_format_spanned_spec); G<fixed><checked>
+    gcases = []
+    for _ in range(ctx.n(1500, 15000)):
+        n = rng.randint(1, 14)
+        t = [rng.choice(ALPHA + WIDE + [10, 10, 10]) for _ in range(n)]
+        bs, off = [0], 0
+        for cp in t:
+            off += len(chr(cp).encode())
+            bs.append(off)
+        k = rng.randint(1, 3)
+        starts = sorted(rng.choice(bs) for _ in range(k))
+        spans = []
+        for st in starts:
+            later = [b for b in bs if b >= st]
+            spans.append((st, rng.choice(later[:4])))
+        gcases.append((t, spans))
+    def gl(flags, t, spans):
+        return "G%s %s ; %s" % (flags, " ".join(map(str, t)), " ".join("%d %d" % sp for sp in spans))
+    lines_h = dl + [gl("", t, sp) for t, sp in gcases]
+    rel = core.run_lines([exe], lines_h)
+    dbg = core.run_lines([exe_dbg], lines_h)
+    m_orig = core.run_lines([mexe], dl + [gl("00", t, sp) for t, sp in gcases] + [gl("01", t, sp) for t, sp in gcases])
+    m_fix = core.run_lines([mexe], [l.replace("D0", "D1", 1) for l in dl]
+                           + [gl("10", t, sp) for t, sp in gcases] + [gl("11", t, sp) for t, sp in gcases])
+    nd, ng = len(dl), len(gcases)
+    # per case: (description, impl release, impl debug, pinned model rel/dbg, repaired model rel/dbg)
+    rows = []
+    for i, (t, pl) in enumerate(texts):
+        rows.append(({"text": t, "prefix_len": pl}, dl[i], rel[i], dbg[i], m_orig[i], m_orig[i], m_fix[i], m_fix[i]))
+    for j, (t, sp) in enumerate(gcases):
+        rows.append(({"text": t, "spans": sp, "via": "format_warning"}, lines_h[nd + j], rel[nd + j], dbg[nd + j],
+                     m_orig[nd + j], m_orig[nd + ng + j], m_fix[nd + j], m_fix[nd + ng + j]))
+    unknown = known = nent = 0
+    for desc, line, a_rel, a_dbg, o_rel, o_dbg, f_rel, f_dbg in rows:
+        t = desc["text"]
+        nontriv = (10 in t) and any(x > 127 or x == 13 for x in t)
+        ctx.case(line, nontriv, {"case": desc, "impl": a_rel[:160]})
+        ctx.count("diag_len_%d" % min(len(t), 8))
+        for prof, a, o, f in (("release", a_rel, o_rel, f_rel), ("debug", a_dbg, o_dbg, f_dbg)):
+            if a == f:
+                nent += a.count("|")
+                continue
+            ea, eo, ef = entries(a), entries(o), entries(f)
+            if set(ea) != set(ef):
+                unknown += 1
+                ctx.violation(dict(desc, profile=prof, impl=a[:400], model=f[:400], note="result shapes differ",
+                                   replay_cmd="echo '%s' | .work/target/%s/c19" % (line, prof)), no_input=True)
+                continue
+            for k in ea:
+                nent += 1
+                if ea[k] == ef[k]:
+                    continue
+                data = dict(desc, profile=prof, query=" ".join(k),
+                            impl_prints=dec(ea[k]), proved_rows_print=dec(ef[k]),
+                            text_str="".join(map(chr, t)),
+                            authority="C19_underline_rows_spec / C19_format_spanned_spec / C19_file_location_spec "
+                                      "(the repaired mirror meets the row specification for every text and span)",
+                            replay_cmd="echo '%s' | .work/target/%s/c19" % (line, prof))
+                if (not DIAG_FIXED) and ea[k] == eo.get(k):
+                    # exactly what the mirror of the pinned code computes: the known defect class
+                    # (C19_underline_orig_*_refuted), confirmed here on the real code
+                    known += 1
+                    ctx.violation(data, known_key=DIAG_KNOWN)
+                else:
+                    unknown += 1
+                    ctx.violation(data)
+    ctx.oblige(unknown == 0 and known == 0, "diagnostics correspondence")
+    ctx.coverage["diag_queries"] = nent
+    ctx.coverage["diag_known_defect_entries"] = known
+    ctx.coverage["diag_rule"] = ("SpannedDiagnosticFormatter over the whole text: every text over {a,é,♠,\\n,\\r} up to length %d "
+                                 "x every boundary span (underline_span_with_text) and every boundary (file_location_msg), random "
+                                 "longer texts incl. width-2 and 4-byte chars with prefixes of 0/3/4 bytes, %d random format_warning "
+                                 "cases (1-3 spans with non-decreasing starts); release and debug (overflow-checked) harness builds; "
+                                 "compared entry by entry with the repaired mirror, deviations tolerated only when DIAG_FIXED is off "
+                                 "and they equal the pinned mirror" % (maxlen, ng))
+    ctx.assumptions += ["UnicodeWidthStr::width (unicode-width 0.1.14) is abstract in the theorems; the correspondence renders with "
+                        "corpus_width, valid only for the characters used (ASCII, U+00E9, U+2660, U+4E2D, U+1F600; CR LF = 0)",
+                        "str::lines()/split('\\n')/strip_suffix are modelled from their documented behaviour (Rust 1.95: a bare final CR is kept by lines())",
+                        "underline_spans_on_line_with_text is private: tied only on the spans format_conflicts hands it (symbols of "
+                        "reduced productions of generated conflict grammars), not on all spans"]
+
+
+def conflicts_part(ctx, exe, mexe):
+    """underline_spans_on_line_with_text is private: it is reached through format_conflicts on
+    grammars with shift/reduce conflicts.  The harness returns the formatted text and the spans of
+    each reduced production; the mirror (spans_on_line) renders the two lines printed for the spans
+    of each source line, which must occur, in order, in the formatted text."""
+    rng = ctx.rng
+    SEPS = [" ", " ", "  ", "\n", "\r\n", "\t", " /* 中 */ ", " /* é♠ */ ", "\n\n  ", " /* a\n b */ ", "\n  "]
+    TEMPLATES = [["E", ":", "E", "'+'", "E", "|", "E", "'*'", "E", "|", "'n'", ";"],
+                 ["S", ":", "'if'", "E", "'then'", "S", "|", "'if'", "E", "'then'", "S", "'else'", "S", "|", "'o'", ";",
+                  "E", ":", "'e'", ";"],
+                 ["A", ":", "A", "A", "|", "'a'", "|", ";"]]
+    srcs = ["%start E\n%%\nE: E '+' E\n | 'n'\n ;\n"]
+    for _ in range(ctx.n(150, 1500)):
+        tpl = rng.choice(TEMPLATES)
+        nl = rng.choice(["\n", "\n", "\r\n"])
+        src = "%start " + tpl[0] + nl + "%%" + nl
+        for tok in tpl:
+            src += tok + rng.choice(SEPS)
+        srcs.append(src)
+    res = core.run_lines([exe], ["C " + s_.encode().hex() for s_ in srcs])
+    qlines, meta = [], []
+    for src, r in zip(srcs, res):
+        parts = r.split(" | ")
+        if not parts[0].startswith("K "):
+            continue
+        tb = src.encode()
+        cps = " ".join(str(ord(ch)) for ch in src)
+        for q in parts[1:]:
+            nums = list(map(int, q.split()[1:]))
+            spans = list(zip(nums[0::2], nums[1::2]))
+            groups = {}
+            for sp in spans:
+                groups.setdefault(tb[:sp[0]].count(b"\n"), []).append(sp)
+            keys = sorted(groups)
+            for gi, k in enumerate(keys):
+                qlines.append("O %s ; %s" % (cps, " ".join("%d %d" % sp for sp in groups[k])))
+                meta.append((src, parts[0], gi == len(keys) - 1, groups[k]))
+    mres = core.run_lines([mexe], qlines) if qlines else []
+    bad = 0
+    cursor = {}
+    for (src, k, last, spans), m in zip(meta, mres):
+        ctx.case("C " + src + repr(spans), "\n" in src and len(spans) > 1, {"grammar": src, "spans": spans})
+        kv, mv = k.split()[-1], m.split()[-1]
+        ok = True
+        if kv == "P" or mv == "P":
+            ok = kv == mv
+        else:
+            out = bytes.fromhex(kv[1:]).decode()
+            exp = bytes.fromhex(mv[1:]).decode() + " " + ("Reduced productions" if last else "") + "\n"
+            pos = out.find(exp, cursor.get(src, 0))
+            ok = pos >= 0
+            if ok:
+                cursor[src] = pos + len(exp)
+        if not ok:
+            bad += 1
+            ctx.violation({"grammar": src, "spans_on_one_line": spans, "mirror_rows": dec(mv), "format_conflicts": dec(kv),
+                           "authority": "C19_spans_on_line_spec (mirror of underline_spans_on_line_with_text)",
+                           "replay_cmd": "echo 'C %s' | .work/target/release/c19" % src.encode().hex()}, no_input=True)
+    ctx.oblige(bad == 0, "underline_spans_on_line_with_text through format_conflicts")
+    ctx.coverage["conflict_rows"] = len(meta)
+    ctx.coverage["conflict_rule"] = ("%d grammars with shift/reduce conflicts (3 templates, random separators incl. CRLF, tabs, comments with "
+                                     "wide chars, line breaks inside productions); every (reduced production, source line) group of spans "
+                                     "rendered by the mirror must occur in order in format_conflicts' output" % len(srcs))
 
 
 def run(ctx):
@@ -117,6 +324,8 @@ def run(ctx):
                            "authority": "C19_line_num_spec, C19_line_col_spec, C19_span_lines_spec (model = spec for all inputs)",
                            "replay_cmd": "echo '%s' | .work/target/release/c19" % l})
     ctx.oblige(ndiff == 0, "correspondence")
+    diag_part(ctx, exe, mexe)
+    conflicts_part(ctx, exe, mexe)
     ctx.coverage["rule"] = ("all texts over {a,é,♠,\\n,\\r} up to length %d with the whole-text feed and %d random chunking(s), "
                             "plus random longer texts incl. 4-byte chars; every byte offset (line), every char boundary "
                             "(line,col), every boundary span; non-trivial = text has a newline and a multi-byte char or CR; "
